@@ -21,6 +21,7 @@ package main
 
 import (
 	"bytes"
+	"context"
 	"encoding/binary"
 	"encoding/json"
 	"fmt"
@@ -350,11 +351,16 @@ func poolRaceChild(k, rounds int, seed uint64) poolRaceResult {
 
 func (e *engine) evalPoolRace(c Case) error {
 	rep := e.rep
-	cmd := exec.Command(os.Args[0])
+	ctx, cancel := context.WithTimeout(context.Background(), 10*time.Minute)
+	defer cancel()
+	cmd := exec.CommandContext(ctx, os.Args[0])
 	cmd.Env = append(os.Environ(), "C03_CHILD=poolrace", fmt.Sprintf("C03_K=%d", c.K), fmt.Sprintf("C03_ROUNDS=%d", c.N), fmt.Sprintf("C03_SEED=%d", c.Cfg.KeySeed))
 	var stdout, stderr bytes.Buffer
 	cmd.Stdout, cmd.Stderr = &stdout, &stderr
 	err := cmd.Run()
+	if ctx.Err() != nil {
+		return fmt.Errorf("poolrace child did not finish in 10 minutes (k=%d, %d rounds)", c.K, c.N)
+	}
 	rep.Case(sigOf(c), true)
 	rep.Count(fmt.Sprintf("poolrace:k=%d", c.K))
 	var res poolRaceResult
@@ -804,7 +810,8 @@ func (e *engine) all() error {
 	if os.Getenv("C03_RACE_CHILD") != "" {
 		// child built with -race: only the concurrent engine, oracle-only
 		r := common.NewRng(o.Seed)
-		for i := 0; i < 200; i++ {
+		cn, _ := strconv.Atoi(os.Getenv("C03_RACE_CHILD"))
+		for i := 0; i < cn; i++ {
 			if err := e.eval(genRaceCase(r.Fork(uint64(5<<32 + i)))); err != nil {
 				return err
 			}
@@ -830,18 +837,14 @@ func (e *engine) all() error {
 			return err
 		}
 	}
-	n = o.Budget(300, 3000)
-	for i := 0; i < n; i++ {
-		if err := e.eval(genRaceCase(r.Fork(uint64(1<<32 + i)))); err != nil {
-			return err
-		}
-	}
-	for i, kk := range []int{2, 4, 16} {
-		pc := Case{Engine: "poolrace", Cfg: Cfg{KeySeed: r.U64()}, K: kk, N: o.Budget(20000, 200000)}
-		_ = i
+	for _, kk := range []int{2, 4, 16} {
+		pc := Case{Engine: "poolrace", Cfg: Cfg{KeySeed: r.U64()}, K: kk, N: o.Budget(50000, 1000000)}
 		if err := e.eval(pc); err != nil {
 			return err
 		}
+	}
+	if err := e.raceChild(o.Budget(300, 3000)); err != nil {
+		return err
 	}
 	if o.Thorough() {
 		e.raceDetectorRun()
@@ -881,6 +884,57 @@ func (e *engine) all() error {
 	return nil
 }
 
+// raceChild runs the race engine (k concurrent HandleStream calls on the same bytes) in a child process: a data
+// race in the pool can end in a fatal runtime error that recover() cannot catch.
+func (e *engine) raceChild(n int) error {
+	rep := e.rep
+	dir, err := os.MkdirTemp("", "c03racechild")
+	if err != nil {
+		return err
+	}
+	defer os.RemoveAll(dir)
+	outFile := filepath.Join(dir, "rep.json")
+	ctx, cancel := context.WithTimeout(context.Background(), 30*time.Minute)
+	defer cancel()
+	child := exec.CommandContext(ctx, os.Args[0], "--tier", e.o.Tier, "--seed", fmt.Sprint(e.o.Seed), "--out", outFile)
+	child.Env = append(os.Environ(), fmt.Sprintf("C03_RACE_CHILD=%d", n))
+	out, cerr := child.CombinedOutput()
+	if ctx.Err() != nil {
+		return fmt.Errorf("race child did not finish in 30 minutes")
+	}
+	var crep common.Report
+	if b, rerr := os.ReadFile(outFile); rerr == nil {
+		json.Unmarshal(b, &crep)
+	}
+	for i := 0; i < crep.Evaluations; i++ { // the child's cases, counted here (distinct by (seed, index))
+		rep.Case(fmt.Sprintf("race-child:%d:%d", e.o.Seed, i), i < crep.DistinctNontrivial)
+	}
+	rep.TracesValidated += crep.TracesValidated
+	for k, v := range crep.Distribution {
+		rep.Distribution[k] += v
+	}
+	for _, f := range crep.OracleFailures {
+		rep.Fail(f)
+	}
+	for _, d := range crep.Divergences {
+		rep.Diverge(d)
+	}
+	if cerr != nil && crep.Evaluations == 0 || strings.Contains(string(out), "fatal error:") {
+		first := lastBytes(out, 1500)
+		if i := strings.Index(string(out), "fatal error:"); i >= 0 {
+			first = string(out)[i:]
+			if len(first) > 1500 {
+				first = first[:1500]
+			}
+		}
+		c := Case{Engine: "race", K: 16, Noise: n}
+		rep.Fail(common.OracleFailure{Engine: "race", Key: "fatal-error:concurrent-handshakes", Case: c,
+			Detail: fmt.Sprintf("the process running %d race cases (k concurrent HandleStream calls on the same request bytes) died: %v: %s", n, cerr, first)})
+		rep.Diverge(common.Divergence{Engine: "race", Case: c, Impl: first, Model: "total"})
+	}
+	return nil
+}
+
 // raceDetectorRun (thorough tier): rebuilds this command with -race and runs the concurrent engine in it.
 // A reported data race in the code under test is an oracle failure; an unavailable race build is only noted.
 func (e *engine) raceDetectorRun() {
@@ -912,7 +966,7 @@ func (e *engine) raceDetectorRun() {
 	}
 	outFile := filepath.Join(dir, "rep.json")
 	child := exec.Command(filepath.Join(dir, "corr_c03_race"), "--tier", "thorough", "--seed", fmt.Sprint(e.o.Seed), "--out", outFile)
-	child.Env = append(env, "C03_RACE_CHILD=1")
+	child.Env = append(env, "C03_RACE_CHILD=200")
 	t0 := time.Now()
 	out, err := child.CombinedOutput()
 	var crep common.Report
@@ -954,7 +1008,7 @@ func main() {
 	rep.Rule = "replay: histories (<= ~45 ops) of clock advances and presentations of crafted/real/mutated SS2022 TCP requests to a real StreamServer on a synctest fake clock; " +
 		"templates: end-of-validity replays (skew -31..+31 s, instants within 0/1/2 ns and 1 s of the last valid instant), retention edges (t1 + 59/60/61/62 s +-2 ns after a pruning Add), forged-copies-first, random walks over a boundary step alphabet; " +
 		"non-trivial = at least one accept and at least one re-presentation of an accepted request; distinct by (config, op list). " +
-		"race: k in {2,3,4,8,16} concurrent copies + 0..6 unrelated concurrent requests. pool: <= 40 SaltPool ops with non-monotone instants, plus floods: Add(r), N distinct fresh salts (N in 2^10, 2^16-1, 2^16, 2^16+1, 2^17, 3*10^5) inside r's validity span, Add(r) again (model compared up to 2048 Adds, larger floods oracle + theorem). poolrace (child process): k in {2,4,16} goroutines call SaltPool.Add for the same fresh salt behind a spin barrier, 20000 / 200000 rounds each. flood: the same through HandleStream with 2048 (quick) / 70000 (thorough, search) real handshakes on the fake clock. ts: 64 (word, clock) pairs per case over 64-bit boundary alphabets"
+		"race: k in {2,3,4,8,16} concurrent copies + 0..6 unrelated concurrent requests. pool: <= 40 SaltPool ops with non-monotone instants, plus floods: Add(r), N distinct fresh salts (N in 2^10, 2^16-1, 2^16, 2^16+1, 2^17, 3*10^5) inside r's validity span, Add(r) again (model compared up to 2048 Adds, larger floods oracle + theorem). poolrace (child process): k in {2,4,16} goroutines call SaltPool.Add for the same fresh salt 50000 / 10^6 rounds each, re-aligned by a blocking barrier every 32 rounds; the race engine itself also runs in a child process so that a fatal runtime error (concurrent map access) is reported as a failure of that scenario. flood: the same through HandleStream with 2048 (quick) / 70000 (thorough, search) real handshakes on the fake clock. ts: 64 (word, clock) pairs per case over 64-bit boundary alphabets"
 	code := 0
 	testing.Main(func(pat, str string) (bool, error) { return true, nil }, []testing.InternalTest{{Name: "corr_c03", F: func(t *testing.T) {
 		e := &engine{o: o, rep: rep, t: t}
